@@ -195,7 +195,7 @@ theorem step_cb (P : DnsParams) (s : Dns) (e : DnsEv) (he : isResolve e = false)
     unfold Dns.step
     simp only
     split
-    · left; simp [callbacks, Dns.doResolve]
+    · left; unfold Dns.doResolve; split <;> simp [callbacks]
     · left; simp [callbacks]
 
 /-- **C20.3 (at most once)** between two resolve requests at most one completion callback is
@@ -283,10 +283,9 @@ theorem c20_inv_step (P : DnsParams) (hp : 1 ≤ P.servers) (s : Dns) (e : DnsEv
         by_cases hm : (!m) = true
         · rw [if_pos hm]; apply hr <;> rfl
         · rw [if_neg hm]
-          refine ⟨fun _ => Or.inl rfl, fun h => ?_, ?_⟩
-          · simp [Dns.doResolve] at h
-          · show 0 + 1 ≤ P.servers
-            omega
+          refine ⟨fun _ => Or.inl (by unfold Dns.doResolve; split <;> rfl), fun h => ?_, ?_⟩
+          · unfold Dns.doResolve at h; split at h <;> simp at h
+          · unfold Dns.doResolve; split <;> (show 0 + 1 ≤ P.servers; omega)
   | connected ok =>
     unfold Dns.step; simp only
     split
@@ -317,7 +316,7 @@ theorem c20_inv_step (P : DnsParams) (hp : 1 ≤ P.servers) (s : Dns) (e : DnsEv
     split
     · rename_i hr
       have := h2 hr
-      simp [Dns.doResolve, Inv]; omega
+      unfold Dns.doResolve; split <;> (simp [Inv]; omega)
     · exact ⟨h1, h2, h3⟩
 
 theorem c20_inv_run (P : DnsParams) (hp : 1 ≤ P.servers) (es : List DnsEv) (s : Dns) (hi : Inv P s) :
@@ -393,7 +392,7 @@ theorem c20_quiet_step (P : DnsParams) (s : Dns) (e : DnsEv) (hq : Quiet P s) : 
         by_cases hm : (!m) = true
         · rw [if_pos hm]; apply hr; rfl
         · rw [if_neg hm]
-          intro h; simp [Dns.doResolve] at h
+          intro h; unfold Dns.doResolve at h; split at h <;> simp at h
   | connected ok =>
     unfold Dns.step; simp only
     by_cases hc : (!s.connOpen) = true
@@ -435,7 +434,7 @@ theorem c20_quiet_step (P : DnsParams) (s : Dns) (e : DnsEv) (hq : Quiet P s) : 
         cases h : s.pending
         · have := (hq h).1; rw [hc] at this; cases this
         · rfl
-      simp [Dns.doResolve, this] at hp
+      unfold Dns.doResolve at hp; split at hp <;> simp [this] at hp
     · rw [if_neg hc]; exact hq
 
 theorem c20_quiet_run (P : DnsParams) (es : List DnsEv) (s : Dns) (hq : Quiet P s) :
@@ -475,7 +474,7 @@ theorem c20_connect_only_when_pending (P : DnsParams) (es : List DnsEv) (e : Dns
       · rw [if_neg hc]
         by_cases hm : (!m) = true
         · rw [if_pos hm]; intro h; exact absurd h (result_no_connect P _ k)
-        · rw [if_neg hm]; intro _; rfl
+        · rw [if_neg hm]; intro _; unfold Dns.doResolve; split <;> rfl
   | connected ok =>
     revert h
     unfold Dns.step; simp only
@@ -521,8 +520,16 @@ theorem c20_connect_only_when_pending (P : DnsParams) (es : List DnsEv) (e : Dns
       intro _
       cases hp : s.pending
       · have := (hq hp).1; rw [hc] at this; cases this
-      · simp [Dns.doResolve, hp]
+      · unfold Dns.doResolve; split <;> simp
     · rw [if_neg hc]; simp
+
+/-- **C20.3g (a refused connection request does not strand the request)** whether the SDK accepts the connection request or
+    refuses it at once (no callback will ever come for it), the try is counted and the per-try timeout is armed: the request
+    goes on to the next server or to its completion callback (C20.2) -/
+theorem c20_refused_connect_keeps_timeout (P : DnsParams) (s : Dns) :
+    (Dns.doResolve P s).1.timeoutArmed = true ∧ (Dns.doResolve P s).1.tries = s.tries + 1 ∧
+    (Dns.doResolve P s).1.pending = s.pending := by
+  unfold Dns.doResolve; split <;> simp
 
 /-! ### instantiation and non-vacuity -/
 
